@@ -15,6 +15,9 @@ pub struct Case {
     /// further top-level assignments (mutual recursion topologies); `ty` is then named "A"
     #[serde(default)]
     pub others: Vec<(String, Ty)>,
+    /// further top-level assignments that are references to another type: (name, ASN.1 text of the type, referenced type)
+    #[serde(default)]
+    pub aliases: Vec<(String, String, String)>,
 }
 
 pub fn sigma2() -> Vec<Ty> {
@@ -321,12 +324,12 @@ impl Prop for C02 {
             if tier.thorough() || t.depth() <= 1 {
                 for (d, i) in &envs {
                     // quick: full environment product only for small shapes, one rotating environment otherwise
-                    out.push(Case { ty: t.clone(), tagdef: d.to_string(), implied: *i, others: vec![] });
+                    out.push(Case { ty: t.clone(), tagdef: d.to_string(), implied: *i, others: vec![], aliases: vec![] });
                 }
             } else {
                 let (d, i) = envs[k % envs.len()];
-                out.push(Case { ty: t.clone(), tagdef: "AUTOMATIC".into(), implied: false, others: vec![] });
-                out.push(Case { ty: t.clone(), tagdef: d.to_string(), implied: i, others: vec![] });
+                out.push(Case { ty: t.clone(), tagdef: "AUTOMATIC".into(), implied: false, others: vec![], aliases: vec![] });
+                out.push(Case { ty: t.clone(), tagdef: d.to_string(), implied: i, others: vec![], aliases: vec![] });
             }
         }
         // --- mutual recursion between top-level types: every 2-cycle A->B->A over node kinds × edge kinds,
@@ -360,8 +363,24 @@ impl Prop for C02 {
                         if !(finite(ka, ea) || finite(kb, eb)) {
                             continue;
                         }
-                        out.push(Case { ty: node(ka, ea, "B"), tagdef: "AUTOMATIC".into(), implied: false, others: vec![("B".into(), node(kb, eb, "A"))] });
+                        out.push(Case { ty: node(ka, ea, "B"), tagdef: "AUTOMATIC".into(), implied: false, others: vec![("B".into(), node(kb, eb, "A"))], aliases: vec![] });
                     }
+                }
+            }
+        }
+        // --- cycles that pass through a type assignment which is only a reference (plain, tagged, two hops): A -> B ::= A
+        for ka in kinds {
+            for ea in edges {
+                if !finite(ka, ea) {
+                    continue;
+                }
+                for (td, alias) in [("AUTOMATIC", "A"), ("AUTOMATIC", "[0] A"), ("EXPLICIT", "[APPLICATION 3] A"), ("IMPLICIT", "[7] EXPLICIT A")] {
+                    out.push(Case { ty: node(ka, ea, "B"), tagdef: td.into(), implied: false, others: vec![], aliases: vec![("B".into(), alias.into(), "A".into())] });
+                    out.push(Case { ty: node(ka, ea, "B"), tagdef: td.into(), implied: false, others: vec![], aliases: vec![("B".into(), "Cc".into(), "Cc".into()), ("Cc".into(), alias.into(), "A".into())] });
+                }
+                // ... and through an alias plus a second constructed type: A -> B ::= C, C -> A
+                for kc in kinds {
+                    out.push(Case { ty: node(ka, ea, "B"), tagdef: "AUTOMATIC".into(), implied: false, others: vec![("Cc".into(), node(kc, "opt", "A"))], aliases: vec![("B".into(), "[1] Cc".into(), "Cc".into())] });
                 }
             }
         }
@@ -390,7 +409,7 @@ impl Prop for C02 {
                 let comps: Vec<Comp> = l.iter().enumerate().map(|(i, (t, o))| Comp { name: name(i), ty: t.clone(), opt: o.clone() }).collect();
                 for set in [false, true] {
                     let t = if set { Ty::Set(Body::of(comps.clone())) } else { Ty::Seq(Body::of(comps.clone())) };
-                    out.push(Case { ty: a_stub.clone(), tagdef: "AUTOMATIC".into(), implied: false, others: vec![(tn.into(), t)] });
+                    out.push(Case { ty: a_stub.clone(), tagdef: "AUTOMATIC".into(), implied: false, others: vec![(tn.into(), t)], aliases: vec![] });
                 }
             }
         }
@@ -404,7 +423,7 @@ impl Prop for C02 {
                                 if !tier.thorough() && (ka == "choice" || kb == "choice") && kc == "choice" {
                                     continue;
                                 }
-                                out.push(Case { ty: node(ka, ea, "B"), tagdef: "AUTOMATIC".into(), implied: false, others: vec![("B".into(), node(kb, eb, "C")), ("C".into(), node(kc, ec, "A"))] });
+                                out.push(Case { ty: node(ka, ea, "B"), tagdef: "AUTOMATIC".into(), implied: false, others: vec![("B".into(), node(kb, eb, "C")), ("C".into(), node(kc, ec, "A"))], aliases: vec![] });
                             }
                         }
                     }
@@ -414,12 +433,15 @@ impl Prop for C02 {
         out
     }
     fn check(&self, c: &Case) -> CaseResult {
-        let src = if c.others.is_empty() {
+        let src = if c.others.is_empty() && c.aliases.is_empty() {
             module_text(&c.ty, &c.tagdef, c.implied)
         } else {
             let mut body = format!("A ::= {}\n", ty_text(&c.ty, "A"));
             for (n, t) in &c.others {
                 body += &format!("{n} ::= {}\n", ty_text(t, n));
+            }
+            for (n, text, _) in &c.aliases {
+                body += &format!("{n} ::= {text}\n");
             }
             module("M", &c.tagdef, c.implied, &body)
         };
@@ -447,6 +469,14 @@ impl Prop for C02 {
         }
         if c.ty.uses_ref() {
             cmp.visited.insert("T".into());
+        }
+        for (n, _, target) in &c.aliases {
+            // a reference assignment is a delegate newtype over the referenced type (boxed or not: finish() judges the cycles)
+            cmp.visited.insert(n.clone());
+            match m.find(n) {
+                Some(Item::Struct { tuple: Some(tu), .. }) if tu.len() == 1 && (tu[0] == *target || tu[0] == format!("Box<{target}>")) => {}
+                other => cmp.discs.push(Disc::new("shape|container=top|comp=alias|kind=type".to_string(), format!("{n} ::= <reference to {target}> rendered as {other:?}\n{full}"))),
+            }
         }
         cmp.finish(&[]);
         CaseResult { discs: cmp.discs, nontrivial: true, outcome: format!("ok:{}", c.ty.kind()), skipped: None }
